@@ -253,9 +253,12 @@ where
             }
         }
         Plan::DeClean { hint } => {
-            let hint = match hint { 0 => None, 1 => Some(n), 2 => Some(0), _ => Some(n + 5) };
+            let hr = *hint >= 4;
+            let hint = match hint % 4 { 0 => None, 1 => Some(n), 2 => Some(0), _ => Some(n + 5) };
             let items = toks.iter().cloned().map(Item::Tok).collect();
-            let (r, st) = de_run::<T>(&honest(items, hint, true));
+            let mut script = honest(items, hint, true);
+            script.human_readable = hr;
+            let (r, st) = de_run::<T>(&script);
             match r {
                 Ok(y) => {
                     let got = model_bits(&y);
@@ -595,7 +598,7 @@ fn observers<T: GlamTy + core::fmt::Debug>(x: &T) -> (Vec<u64>, String) {
 }
 
 /// Reads from arbitrary bytes (needs only AnyBitPattern); `is_pod` adds the write-side checks.
-fn bytes_case<T>(plan: &Plan, v: &Val, is_pod: bool, bytes_of: Option<fn(&T) -> Vec<u8>>) -> CaseOut
+fn bytes_case<T>(plan: &Plan, v: &Val, is_pod: bool, bytes_of: Option<fn(&T) -> Vec<u8>>, cast_slice_rt: Option<fn(&T) -> Result<(), String>>) -> CaseOut
 where
     T: GlamTy + V + bytemuck::AnyBitPattern + core::fmt::Debug,
 {
@@ -650,6 +653,12 @@ where
                 if model_bits(&y) != bits {
                     out.fail(format!("image-roundtrip:{name}"), "bytes_of -> pod_read_unaligned is not the identity".to_string());
                 }
+                // arrays of values: stride = size, no padding between elements (cast_slice both ways)
+                if let Some(cs) = cast_slice_rt {
+                    if let Err(e) = cs(&x) {
+                        out.fail(format!("image-cast-slice:{name}"), e);
+                    }
+                }
             }
         }
         Plan::PodBitflip { bit } => {
@@ -688,6 +697,22 @@ where
         _ => {}
     }
     out
+}
+
+fn cast_slice_roundtrip<T: GlamTy + bytemuck::Pod>(x: &T) -> Result<(), String> {
+    let z: T = bytemuck::Zeroable::zeroed();
+    let arr = [*x, z, *x];
+    let bytes: &[u8] = bytemuck::cast_slice(&arr);
+    let one = bytemuck::bytes_of(x);
+    let size = core::mem::size_of::<T>();
+    if bytes.len() != 3 * size || &bytes[..size] != one || &bytes[2 * size..] != one || bytes[size..2 * size].iter().any(|b| *b != 0) {
+        return Err(format!("cast_slice of [x, zeroed, x] is not bytes_of(x) ++ zeros ++ bytes_of(x): {bytes:02x?}"));
+    }
+    let back: &[T] = bytemuck::try_cast_slice(bytes).map_err(|e| format!("try_cast_slice back failed: {e:?}"))?;
+    if back.len() != 3 || model_bits(&back[0]) != model_bits(x) || model_bits(&back[2]) != model_bits(x) {
+        return Err("cast_slice there and back is not the identity".to_string());
+    }
+    Ok(())
 }
 
 // ---------------------------------------------------------------------------------------------
@@ -909,12 +934,21 @@ mint_mat!(DMat2, f64, 2, ColumnMatrix2, RowMatrix2, [x 0, y 1]);
 mint_mat!(DMat3, f64, 3, ColumnMatrix3, RowMatrix3, [x 0, y 1, z 2]);
 mint_mat!(DMat4, f64, 4, ColumnMatrix4, RowMatrix4, [x 0, y 1, z 2, w 3]);
 
-fn mint_case<T: MintCheck + V>(plan: &Plan, v: &Val) -> CaseOut {
+fn mint_case<T>(plan: &Plan, v: &Val) -> CaseOut
+where
+    T: MintCheck + V + mint::IntoMint + From<<T as mint::IntoMint>::MintType>,
+{
     let mut out = CaseOut::default();
     if let Plan::Mint = plan {
         let x = T::from_val(v);
         if let Err(e) = x.mint_check() {
             out.fail(format!("mint:{}", T::NAME), e);
+        }
+        // the `IntoMint` association: whatever type it names must round-trip too
+        let m: <T as mint::IntoMint>::MintType = x.into();
+        let back: T = m.into();
+        if model_bits(&back) != model_bits(&x) {
+            out.fail(format!("mint:{}", T::NAME), format!("{} -> IntoMint::MintType -> back is not the identity", T::NAME));
         }
     }
     out
@@ -938,8 +972,8 @@ macro_rules! e19 {
     };
     (@serde $T:ident y) => { Some(serde_case::<$T> as CaseFn) };
     (@serde $T:ident n) => { None };
-    (@bytes $T:ident pod) => { Some((|p: &Plan, v: &Val| bytes_case::<$T>(p, v, PodProbe::<$T>(core::marker::PhantomData).is_pod(), Some(|x: &$T| bytemuck::bytes_of(x).to_vec()))) as CaseFn) };
-    (@bytes $T:ident any) => { Some((|p: &Plan, v: &Val| bytes_case::<$T>(p, v, PodProbe::<$T>(core::marker::PhantomData).is_pod(), None)) as CaseFn) };
+    (@bytes $T:ident pod) => { Some((|p: &Plan, v: &Val| bytes_case::<$T>(p, v, PodProbe::<$T>(core::marker::PhantomData).is_pod(), Some(|x: &$T| bytemuck::bytes_of(x).to_vec()), Some(cast_slice_roundtrip::<$T>))) as CaseFn) };
+    (@bytes $T:ident any) => { Some((|p: &Plan, v: &Val| bytes_case::<$T>(p, v, PodProbe::<$T>(core::marker::PhantomData).is_pod(), None, None)) as CaseFn) };
     (@bytes $T:ident n) => { None };
     (@rkyv $T:ident y) => { Some(rkyv_case::<$T> as CaseFn) };
     (@rkyv $T:ident n) => { None };
@@ -1028,7 +1062,7 @@ pub fn plans(e: &Entry19) -> Vec<Plan> {
             for k in 0..=n + 1 {
                 p.push(Plan::SerFail { k });
             }
-            for hint in 0..4 {
+            for hint in 0..8 {
                 p.push(Plan::DeClean { hint });
             }
             for j in 0..n {
@@ -1187,9 +1221,18 @@ pub fn run(seed: u64, values_per_plan: usize, workers: usize) -> Summary {
         let (ti, plan) = &cases[i / values_per_plan];
         let vi = i % values_per_plan;
         let e = &ents[*ti];
-        // static plans need one value only
-        let v = gen_value(e, seed, *ti, vi);
-        let o = run_plan(e, plan, &v);
+        let mut v = gen_value(e, seed, *ti, vi);
+        let mut o = run_plan(e, plan, &v);
+        if e.ty == Ty::Euler {
+            // the enum has 24 values: every plan sees all of them, whatever values_per_plan is
+            for k in 1..3 {
+                if o.viol.is_some() {
+                    break;
+                }
+                v = gen_value(e, seed, *ti, vi + k * values_per_plan.max(8));
+                o = run_plan(e, plan, &v);
+            }
+        }
         let viol = o.viol.as_ref().map(|(class, detail)| {
             let sv = shrink(e, plan, &v, class);
             let o2 = run_plan(e, plan, &sv);
